@@ -200,6 +200,8 @@ def independent_row_indices(mat):
     ind_vecs = []
     for i in range(mat.shape[0]):
         submat = mat[ind_vecs + [i,], ]
-        if not np.isclose(np.linalg.det(submat@submat.T), 0):
+        # rank test instead of an absolute tolerance on the Gram determinant, which shrinks like
+        # (1 - discount)**(2*rows) and made genuinely independent rows look dependent
+        if np.linalg.matrix_rank(submat) == len(submat):
             ind_vecs.append(i)
     return ind_vecs
